@@ -187,6 +187,12 @@ class Model(SOCModel):
                             more_exp.append(exp_cone_constr)
                     elif constr.xtype == 'X':
                         affine_out = constr.affine_out * (1/constr.multiplier)
+                        if getattr(constr, 'sum_axis', False) is not False:
+                            # sum of exponentials: exp(in_i) <= aux_i, sum(aux) + out <= 0
+                            aux_var = self.dvar(constr.affine_in.shape, aux=True)
+                            summed = aux_var.sum(axis=constr.sum_axis)
+                            self.aux_constr.append(summed + affine_out <= 0)
+                            affine_out = - aux_var.to_affine()
                         exprs_list = rso_broadcast(constr.affine_in, affine_out)
                         for exprs in exprs_list:
                             exp_cone_constr = ExpConstr(constr.model,
@@ -194,6 +200,12 @@ class Model(SOCModel):
                             self.exp_constr.append(exp_cone_constr)
                     elif constr.xtype == 'L':
                         affine_out = constr.affine_out * (1/constr.multiplier)
+                        if getattr(constr, 'sum_axis', False) is not False:
+                            # sum of logarithms: aux_i <= log(in_i), sum(aux) >= out
+                            aux_var = self.dvar(constr.affine_in.shape, aux=True)
+                            summed = aux_var.sum(axis=constr.sum_axis)
+                            self.aux_constr.append(summed - affine_out >= 0)
+                            affine_out = aux_var.to_affine()
                         exprs_list = rso_broadcast(constr.affine_in, affine_out)
                         for exprs in exprs_list:
                             exp_cone_constr = ExpConstr(constr.model,
